@@ -218,4 +218,43 @@ theorem screen_matches_witness_unprintable :
       ⟨[0x24, 0x20] ++ ((Vterm.init 4 1 false).run [0x09]).rl.line.text,
        2 + ((Vterm.init 4 1 false).run [0x09]).rl.line.cursor, .ground⟩ := by decide
 
+/-! ### the usual way to start: `vterm_automate_init_step` first -/
+
+/-- The same guarantees when the session starts with the init step (prompt
+printed before the first key, as igris' own test and the harness do): events
+equal the reference editor's, memory safety and bounds, and the screen —
+fed the init step's output and then every echoed byte — shows prompt ++ line
+with the cursor at |prompt| + cursor whenever the terminal is in state 2
+(blank row while vtermxx owes the prompt after Enter). -/
+theorem init_step_session (cap depth : Nat) (hcap : 1 ≤ cap) (hd : 1 ≤ depth) (hd2 : depth ≤ 255) (cxx : Bool)
+    (prompt : List Byte) (keys : List Byte) :
+    let v0 := (Vterm.init cap depth cxx prompt).initStep.1
+    v0.events keys = (Ref.init depth).events cap keys ∧
+    ((v0.run keys).rl.faulted = false ∧ (v0.run keys).rl.line.cursor ≤ (v0.run keys).rl.line.len ∧
+      (v0.run keys).rl.line.len < cap) ∧
+    (AllP prompt → (∀ k ∈ keys, screenKey k = true) →
+      ((v0.run keys).state = 2 →
+        Screen.blank.feed ((Vterm.init cap depth cxx prompt).initStep.2 ++ v0.echoed keys) =
+          ⟨prompt ++ (v0.run keys).rl.line.text, prompt.length + (v0.run keys).rl.line.cursor, .ground⟩) ∧
+      ((v0.run keys).state ≠ 2 →
+        Screen.blank.feed ((Vterm.init cap depth cxx prompt).initStep.2 ++ v0.echoed keys) = ⟨[], 0, .ground⟩)) := by
+  have h0 := init_sim cap depth hcap hd hd2 cxx prompt
+  obtain ⟨i1, i2, i3, i4, _, i6⟩ := initStep_sim cap depth _ _ h0 (by simp [Vterm.init])
+  refine ⟨events_sim cap depth hd hd2 _ _ keys i1, ?_, ?_⟩
+  · have := safe_of_sim cap depth _ _ (run_sim cap depth hd hd2 _ _ keys i1)
+    exact ⟨this.1, this.2.1, this.2.2.1⟩
+  · intro hP hk
+    have hp0 : (Vterm.init cap depth cxx prompt).initStep.1.prompt = prompt := i4
+    have he0 : (Vterm.init cap depth cxx prompt).initStep.1.echo = true := i3
+    have hout : (Vterm.init cap depth cxx prompt).initStep.2 = prompt := by rw [i6]; rfl
+    have hs0 : SInv (Vterm.init cap depth cxx prompt).initStep.1.prompt (Vterm.init cap depth cxx prompt).initStep.1
+        (Screen.blank.feed prompt) (Ref.init depth) := by
+      unfold SInv
+      rw [if_pos i2, hp0]
+      exact showing_empty prompt hP
+    obtain ⟨s1, s2⟩ := screen_run cap depth hd hd2 _ _ _ keys i1 (refP_init depth) he0 (by rw [hp0]; exact hP) hk hs0
+    rw [hp0] at s1
+    rw [hout, Screen.feed_append]
+    exact screen_of_sim cap depth prompt _ _ _ s2 s1
+
 end Igris.C15
